@@ -86,9 +86,14 @@ func NewRequestPacket(ntskeData ntske.Data) (pkt Packet, uniqueid []byte) {
 	cookie.Cookie = ntskeData.Cookie[0]
 	pkt.Cookies = append(pkt.Cookies, cookie)
 
-	// Add cookie extension fields here s.t. 8 cookies are available after response.
+	// Add cookie extension fields here s.t. 8 cookies are available after response,
+	// as far as they fit into MaxPacketLen next to the NTP header, the unique
+	// identifier, the cookie and the authenticator (EncodePacket panics otherwise).
+	cookieFieldLen := 4 + (len(cookie.Cookie)+3) & ^3
+	avail := MaxPacketLen - ntpPacketLen - (4 + len(id)) - cookieFieldLen - (4 + 4 + 16 + 16)
 	cookiePlaceholderData := make([]byte, len(cookie.Cookie))
-	for i := len(ntskeData.Cookie); i < numStoredCookies; i++ {
+	for i := len(ntskeData.Cookie); i < numStoredCookies && avail >= cookieFieldLen; i++ {
+		avail -= cookieFieldLen
 		var cookiePlacholder CookiePlaceholder
 		cookiePlacholder.Cookie = cookiePlaceholderData
 		pkt.CookiePlaceholders = append(pkt.CookiePlaceholders, cookiePlacholder)
